@@ -18,7 +18,7 @@ from mc import refalg as R
 PROPERTY = "C08"
 LEVEL = "model_checking"
 
-STEPS = ["prox", "inexact_abs", "inexact_rel", "els0", "els1", "els2", "lmo", "eps_sub", "iprox1", "iprox2", "iprox3", "breg_grad", "breg_prox"]
+STEPS = ["prox", "inexact_abs", "inexact_rel", "els0", "els1", "els2", "lmo", "eps_sub", "iprox1", "iprox2", "iprox3", "breg_grad", "breg_prox", "breg_grad_n", "breg_prox_n"]
 SIZES = [0, 0.5, 1, 2, 1e-9]
 FUNCS = ["fd", "fn", "sum", "sum_eval"]
 FUNCS_THOROUGH = FUNCS + ["weighted", "nested", "zero"]
@@ -38,6 +38,7 @@ class World(object):
         self.fn = p.declare_function(ConvexFunction, name="fn")
         self.ind = p.declare_function(ConvexIndicatorFunction, D=1.0, name="ind")
         self.h = p.declare_function(SmoothStronglyConvexFunction, mu=0.5, L=2.0, name="mirror")
+        self.hn = p.declare_function(ConvexFunction, name="mirror_n")        # a mirror map that is not differentiable
         self.part = p.declare_block_partition(d=2)
         self.a, self.b = p.set_initial_point(name="a"), p.set_initial_point(name="b")
         self.ok = True
@@ -90,7 +91,7 @@ class World(object):
             self.x0 = x0
         if func == "sum_eval" and self.ok:
             self.fd.oracle(self.x0)
-        self.all_functions = [self.fd, self.fn, self.ind, self.h] + ([self.f] if self.terms else [])
+        self.all_functions = [self.fd, self.fn, self.ind, self.h, self.hn] + ([self.f] if self.terms else [])
 
     def snapshot(self):
         from PEPit.point import Point
@@ -152,15 +153,17 @@ def judge(step, size, func, start, pre):
             if size == 0 and step == "iprox3":
                 return None, "disabled"          # v = (x0 - x) / gamma is not defined for gamma = 0
             ret = PS.inexact_proximal_step(x0, f, size, opt={"iprox1": "PD_gapI", "iprox2": "PD_gapII", "iprox3": "PD_gapIII"}[step])
-        elif step == "breg_grad":
+        elif step in ("breg_grad", "breg_grad_n"):
+            hmap = w.h if step == "breg_grad" else w.hn
             gx0 = f.gradient(x0)
-            sx0 = w.h.gradient(x0)
+            sx0 = hmap.gradient(x0)
             before = w.snapshot()
-            ret = PS.bregman_gradient_step(gx0, sx0, w.h, size)
-        elif step == "breg_prox":
-            sx0 = w.h.gradient(x0)
+            ret = PS.bregman_gradient_step(gx0, sx0, hmap, size)
+        elif step in ("breg_prox", "breg_prox_n"):
+            hmap = w.h if step == "breg_prox" else w.hn
+            sx0 = hmap.gradient(x0)
             before = w.snapshot()
-            ret = PS.bregman_proximal_step(sx0, w.h, f, size)
+            ret = PS.bregman_proximal_step(sx0, hmap, f, size)
         else:
             raise KeyError(step)
     except Exception as e:
@@ -281,17 +284,17 @@ def judge(step, size, func, start, pre):
             expect(all(is_fresh_point(q, before) for q in (x, gx, wpt)) and len({id(q) for q in (x, gx, wpt)}) == 3, "fresh", "x, gx, w are not fresh leaves")
             expect(same_p(v, R.scale(1.0 / gamma, R.sub(cp(x0), cp(x)))), "relation", "v is not (x0 - x) / gamma")
             expected_samples[id(f)] += [triple(x, gx, fx), triple(wpt, v, fw)]
-    elif step == "breg_grad":
+    elif step in ("breg_grad", "breg_grad_n"):
         x, sx, hx = ret
         expect(is_fresh_point(x, before) and is_fresh_expr(hx, before), "fresh", "x / hx are not fresh leaves")
         expect(same_p(sx, lin_p([(1, sx0), (-size, gx0)])), "relation", "sx is not sx0 - gamma * gx0")
-        expected_samples[id(w.h)].append(triple(x, sx, hx))
-    elif step == "breg_prox":
+        expected_samples[id(hmap)].append(triple(x, sx, hx))
+    elif step in ("breg_prox", "breg_prox_n"):
         x, sx, hx, gx, fx = ret
         expect(is_fresh_point(x, before) and is_fresh_point(gx, before) and is_fresh_expr(hx, before) and is_fresh_expr(fx, before) and gx is not x,
                "fresh", "x, gx, hx, fx are not fresh leaves")
         expect(same_p(sx, lin_p([(1, sx0), (-size, gx)])), "relation", "sx is not sx0 - gamma * gx")
-        expected_samples[id(w.h)].append(triple(x, sx, hx))
+        expected_samples[id(hmap)].append(triple(x, sx, hx))
         expected_samples[id(f)].append(triple(x, gx, fx))
     # ---- exact sets: samples and constraints of every function, everything else untouched
     if w.terms and f is w.f:
